@@ -323,6 +323,18 @@ Theorem claims_list_match_ok_iff : forall rqs pcs,
 Proof. exact claims_list_match_ok_iff_. Qed.
 Print Assumptions claims_list_match_ok_iff.
 
+(** every credential of a presentation has to be valid at the verification time - not just the last *)
+Theorem all_valid_at_iff : forall now vs,
+  all_valid_at now vs = true <-> Forall (fun v => (fst v <= now < snd v)%N) vs.
+Proof. exact all_valid_at_iff_. Qed.
+Print Assumptions all_valid_at_iff.
+
+Theorem all_valid_is_not_last_only :
+  (forall now vs, all_valid_at now vs = true -> last_valid_at now vs = true)
+  /\ (exists now vs, last_valid_at now vs = true /\ all_valid_at now vs = false).
+Proof. exact all_valid_not_last_only_. Qed.
+Print Assumptions all_valid_is_not_last_only.
+
 (** * non-vacuity *)
 Local Open Scope N_scope.
 Example encoding_examples :
